@@ -105,7 +105,7 @@ def rename_refs(sc, old, new):
 
 MUTATIONS = ["drop_state_field", "drop_scope_field", "rename_state", "retarget", "retag", "wrong_type", "dup_names",
              "empty_object", "empty_branches", "drop_state", "junk_member", "end_false", "catcher", "timestamp", "two",
-             "numeric_field", "dangling_all", "empty_startat", "cross_scope_ref", "template_value"]
+             "numeric_field", "dangling_all", "empty_startat", "cross_scope_ref", "template_value", "junk_branch_elem"]
 
 
 def mutate(rng, m, op=None):
@@ -282,6 +282,25 @@ def mutate(rng, m, op=None):
             val = rng.choice(JUNK + ["garbage", "$.x", "States.Array(1)", "States.Nope(1)", ""])
             tmpl = {"a.$": val} if rng.random() < 0.6 else {"n": {"b.$": val}, "l": [{"c.$": val}]}
             st[rng.choice(["Parameters", "ResultSelector", "ItemSelector"])] = tmpl
+    elif op == "junk_branch_elem":
+        # an element of some Parallel state's Branches that is not an object (the validator reports it): the engine's
+        # state lookup descends into every scope of the definition, also for events of *other*, healthy states
+        pars = [s_ for sc_, _d in scopes_of(m) for s_ in (sc_.get("States") or {}).values()
+                if isinstance(s_, dict) and isinstance(s_.get("Branches"), list)]
+        junk = rng.choice([5, "oops", None, True, ["x"], 1.5])
+        if pars:
+            b = rng.choice(pars[1:] or pars)["Branches"]
+            if b and rng.random() < 0.5:
+                b[rng.randrange(len(b))] = junk
+            else:
+                b.insert(rng.randint(0, len(b)), junk)
+        else:
+            # a healthy fan-out first, the damaged one after it
+            keep = {k: v for k, v in st.items() if k in ("Next", "End")} if isinstance(st, dict) else {}
+            if not keep or (isinstance(st, dict) and st.get("Type") == "Choice"):
+                keep = {"End": True}
+            sts[name] = {"Type": "Parallel", "Next": name + "jb", "Branches": [{"StartAt": name + "ja", "States": {name + "ja": {"Type": "Pass", "End": True}}}]}
+            sts[name + "jb"] = dict({"Type": "Parallel", "Branches": [{"StartAt": name + "jc", "States": {name + "jc": {"Type": "Pass", "End": True}}}, junk]}, **keep)
     elif op == "junk_member":
         sts[rng.choice(["J", "", name + "j"])] = rng.choice(JUNK)
     elif op == "end_false":
